@@ -241,6 +241,182 @@ def _ser_roundtrip():
 POOL_QUICK_HISTORY = None  # all of the pool
 
 
+# --------------------------------------------------------------------------------------------------------------------
+# the mechanically built disturbance family "one stray token at every position of every construct"
+#
+# Every sub-parser of the library (sheet, each at-rule with its prelude and block, selector, declaration block, declaration, value,
+# priority, media query, @media name) is made to end its run NOT well-formed in every way a single stray token can cause: each token
+# kind of JUNK_TOKENS is put at each slot of each construct (SLOT_TEMPLATES: before / inside / behind every part).  Each text is one
+# earlier call; afterwards the probe battery must answer as in a fresh process.  The texts go through the parse entry points
+# (parseString / parseStyle of a default and of a raising parser) and through the stand-alone DOM constructors of the sub-parsers
+# that have one (in raising and in log-only mode).
+
+JUNK_TOKENS = {
+    'unknown at-keyword': '@junk', 'known at-keyword': '@media', 'comment': '/*j*/', 'ident': 'junk', 'string': '"j"', 'unclosed string': '"j', 'number': '7', 'dimension': '3d',
+    'hash': '#j1', 'char $': '$', 'function': 'j(', 'opening bracket': '[', 'closing paren': ')', 'closing brace': '}', 'opening brace': '{', 'semicolon': ';', 'priority': '!important',
+    'uri': 'url(j)', 'CDO': '<!--', 'colon': ':', 'comma': ',', 'backslash': '\\',
+}
+QUICK_JUNK = ('unknown at-keyword', 'known at-keyword', 'comment', 'ident', 'string', 'dimension', 'char $', 'function', 'closing paren', 'closing brace', 'semicolon', 'priority', 'uri', 'colon', 'comma')
+
+# (entry point, construct, slot) -> text with one %s
+SLOT_TEMPLATES = [
+    ('sheet', 'sheet', 'before the first rule', '%s a { top: 0 }'),
+    ('sheet', 'sheet', 'between rules', 'a { top: 0 } %s b { left: 0 }'),
+    ('sheet', 'sheet', 'behind the last rule', 'a { top: 0 } %s'),
+    ('sheet', 'selector', 'behind a combinator', 'a > %s b { top: 0 }'),
+    ('sheet', 'selector', 'behind the last simple selector', 'a b %s { top: 0 }'),
+    ('sheet', 'selector', 'behind the comma', 'a, %s b { top: 0 }'),
+    ('sheet', 'selector', 'in an attribute selector', 'a[%s] { top: 0 }'),
+    ('sheet', 'selector', 'behind the attribute value', 'a[b="c" %s] { top: 0 }'),
+    ('sheet', 'selector', 'in a negation', 'a:not(%s) { top: 0 }'),
+    ('sheet', 'selector', 'behind the pseudo colon', 'a:%s { top: 0 }'),
+    ('sheet', 'declaration block', 'before the first declaration', 'a { %s top: 0 }'),
+    ('sheet', 'declaration block', 'behind the last semicolon', 'a { top: 0; %s }'),
+    ('sheet', 'declaration', 'behind the name', 'a { top %s : 0 }'),
+    ('sheet', 'value', 'before the value', 'a { top: %s 0 }'),
+    ('sheet', 'value', 'behind the value', 'a { top: 0 %s }'),
+    ('sheet', 'value', 'inside a function', 'a { color: rgb(1, %s 2, 3) }'),
+    ('sheet', 'value', 'inside calc', 'a { top: calc(1px + %s 2px) }'),
+    ('sheet', 'priority', 'behind the !', 'a { top: 0 ! %s important }'),
+    ('sheet', 'priority', 'behind important', 'a { top: 0 !important %s }'),
+    ('sheet', 'priority', 'behind important, declarations follow', 'a { top: 0 !important %s; left: 0 } b { left: 0 }'),
+    ('sheet', '@font-face', 'prelude', '@font-face %s { font-family: x }'),
+    ('sheet', '@font-face', 'block', '@font-face { font-family: x; %s }'),
+    ('sheet', '@font-face', 'behind the block', '@font-face { font-family: x } %s'),
+    ('sheet', '@variables', 'prelude', '@variables %s { a: b }'),
+    ('sheet', '@variables', 'behind the name', '@variables { a %s : b }'),
+    ('sheet', '@variables', 'behind the value', '@variables { a: b %s }'),
+    ('sheet', '@media', 'behind the media type', '@media tv %s { a { top: 0 } }'),
+    ('sheet', '@media', 'behind and', '@media tv and %s (color) { a { top: 0 } }'),
+    ('sheet', '@media', 'in the expression', '@media tv and (min-width: %s 1px) { a { top: 0 } }'),
+    ('sheet', '@media', 'behind the comma', '@media tv, %s tty { a { top: 0 } }'),
+    ('sheet', '@media', 'before the name', '@media tv %s "n" { a { top: 0 } }'),
+    ('sheet', '@media', 'behind the name', '@media tv "n" %s { a { top: 0 } }'),
+    ('sheet', '@media', 'before the first nested rule', '@media tv { %s a { top: 0 } }'),
+    ('sheet', '@media', 'behind the last nested rule', '@media tv { a { top: 0 } %s }'),
+    ('sheet', '@import', 'before the href', '@import %s "x.css";'),
+    ('sheet', '@import', 'behind the href', '@import "x.css" %s;'),
+    ('sheet', '@import', 'behind the media', '@import "x.css" tv %s;'),
+    ('sheet', '@import', 'behind the name', '@import "x.css" tv "n" %s; a { top: 0 }'),
+    ('sheet', '@namespace', 'before the prefix', '@namespace %s p "u"; p|a { top: 0 }'),
+    ('sheet', '@namespace', 'behind the prefix', '@namespace p %s "u"; p|a { top: 0 }'),
+    ('sheet', '@namespace', 'behind the URI', '@namespace p "u" %s; p|a { top: 0 }'),
+    ('sheet', '@charset', 'before the encoding', '@charset %s "ascii"; a { top: 0 }'),
+    ('sheet', '@charset', 'behind the encoding', '@charset "ascii" %s; a { top: 0 }'),
+    ('sheet', '@page', 'prelude', '@page %s { margin: 0 }'),
+    ('sheet', '@page', 'behind the pseudo page', '@page :first %s { margin: 0 }'),
+    ('sheet', '@page', 'block', '@page { margin: 0; %s }'),
+    ('sheet', '@page', 'margin rule prelude', '@page { @top-left %s { top: 0 } }'),
+    ('sheet', '@page', 'margin rule block', '@page { @top-left { top: 0 %s } }'),
+    ('sheet', '@page', 'behind the margin rule', '@page { @top-left { top: 0 } %s }'),
+    ('sheet', 'unknown at-rule', 'prelude', '@x y %s;'),
+    ('sheet', 'unknown at-rule', 'block', '@x { y %s } a { top: 0 }'),
+    ('style', 'declaration block', 'before the first declaration', '%s top: 0'),
+    ('style', 'declaration block', 'behind the last semicolon', 'top: 0; %s'),
+    ('style', 'declaration', 'behind the name', 'top %s : 0'),
+    ('style', 'value', 'before the value', 'top: %s 0'),
+    ('style', 'value', 'behind the value', 'top: 0 %s'),
+    ('style', 'value', 'inside a function', 'color: rgb(1, %s 2, 3)'),
+    ('style', 'priority', 'behind the !', 'top: 0 ! %s important'),
+    ('style', 'priority', 'behind important', 'top: 0 !important %s'),
+    ('style', 'priority', 'behind important, declarations follow', 'top: 0 !important %s; left: 0'),
+    # stand-alone DOM constructors of the sub-parsers
+    ('Selector', 'selector', 'behind a combinator', 'a > %s b'),
+    ('Selector', 'selector', 'behind the last simple selector', 'a b %s'),
+    ('Selector', 'selector', 'in a negation', 'a:not(%s)'),
+    ('SelectorList', 'selector', 'behind the comma', 'a, %s b'),
+    ('CSSStyleDeclaration', 'declaration block', 'behind the last semicolon', 'top: 0; %s'),
+    ('CSSStyleDeclaration', 'priority', 'behind important', 'top: 0 !important %s'),
+    ('Property.priority', 'priority', 'behind important', 'important %s'),
+    ('Property.priority', 'priority', 'behind the !', '! %s important'),
+    ('Property.cssText', 'priority', 'behind important', 'top: 0 !important %s'),
+    ('Property.name', 'declaration', 'behind the name', 'top %s'),
+    ('PropertyValue', 'value', 'behind the value', '0 %s'),
+    ('PropertyValue', 'value', 'inside a function', 'rgb(1, %s 2, 3)'),
+    ('MediaQuery', '@media', 'behind the media type', 'tv %s'),
+    ('MediaQuery', '@media', 'in the expression', 'tv and (min-width: %s 1px)'),
+    ('MediaList', '@media', 'behind the comma', 'tv, %s tty'),
+    ('CSSVariablesDeclaration', '@variables', 'behind the value', 'a: b %s'),
+    ('CSSFontFaceRule.cssText', '@font-face', 'prelude', '@font-face %s { font-family: x }'),
+    ('CSSVariablesRule.cssText', '@variables', 'prelude', '@variables %s { a: b }'),
+    ('CSSMediaRule.cssText', '@media', 'behind the name', '@media tv "n" %s { a { top: 0 } }'),
+    ('CSSStyleSheet.cssText', 'sheet', 'between rules', 'a { top: 0 } %s b { left: 0 }'),
+]
+
+
+def _dom_entry(entry, text):
+    """the stand-alone DOM call of a sub-parser"""
+    import cssutils.css as C
+    import cssutils.stylesheets as S
+    if entry == 'Selector':
+        return C.Selector(text)
+    if entry == 'SelectorList':
+        return C.SelectorList(text)
+    if entry == 'CSSStyleDeclaration':
+        return C.CSSStyleDeclaration(text)
+    if entry == 'Property.priority':
+        return setattr(C.Property('top', '0'), 'priority', text)
+    if entry == 'Property.cssText':
+        return setattr(C.Property('left', '1px'), 'cssText', text)
+    if entry == 'Property.name':
+        return setattr(C.Property('left', '1px'), 'name', text)
+    if entry == 'PropertyValue':
+        return C.PropertyValue(text)
+    if entry == 'MediaQuery':
+        return S.MediaQuery(text)
+    if entry == 'MediaList':
+        return S.MediaList(text)
+    if entry == 'CSSVariablesDeclaration':
+        return C.CSSVariablesDeclaration(text)
+    if entry == 'CSSFontFaceRule.cssText':
+        return setattr(C.CSSFontFaceRule(), 'cssText', text)
+    if entry == 'CSSVariablesRule.cssText':
+        return setattr(C.CSSVariablesRule(), 'cssText', text)
+    if entry == 'CSSMediaRule.cssText':
+        return setattr(C.CSSMediaRule(), 'cssText', text)
+    if entry == 'CSSStyleSheet.cssText':
+        return setattr(C.CSSStyleSheet(), 'cssText', text)
+    raise KeyError(entry)
+
+
+def stray_token_calls(tier='quick'):
+    """-> ordered {name: (entry, mode, text)}: every slot x every stray token x the modes of the entry point"""
+    import collections
+    out = collections.OrderedDict()
+    kinds = QUICK_JUNK if tier == 'quick' else tuple(JUNK_TOKENS)
+    for entry, construct, slot, tpl in SLOT_TEMPLATES:
+        for mode in (('default parser', 'raising parser') if entry in ('sheet', 'style') else ('raising mode', 'log-only mode')):
+            for k in kinds:
+                out[f'stray {k} | {construct}, {slot} | {entry}, {mode}'] = (entry, mode, tpl % JUNK_TOKENS[k])
+    return out
+
+
+def stray_call(entry, mode, text):
+    import cssutils
+    if entry in ('sheet', 'style'):
+        parser = cssutils.CSSParser(fetcher=_fetch_ok, raiseExceptions=(mode == 'raising parser') or None)
+        return parser.parseString(text, href='http://example.com/s.css') if entry == 'sheet' else parser.parseStyle(text)
+    if mode == 'log-only mode':
+        return _in_log_mode(lambda: _dom_entry(entry, text))
+    return _dom_entry(entry, text)
+
+
+def stray_worker(job):
+    """(name, (entry, mode, text)) in a fresh process: the call, the global-mode monitor around it, then the probe battery"""
+    name, (entry, mode, text) = job
+    _quiet()
+    before = globals_view()
+    try:
+        stray_call(entry, mode, text)
+        oc = 'returned'
+    except SystemExit:
+        oc = 'raised SystemExit'
+    except Exception as e:
+        oc = 'raised ' + type(e).__name__
+    after = globals_view()
+    return {'name': name, 'text': text, 'outcome': oc, 'monitor': view_diff(before, after), 'battery': battery(), 'pid': os.getpid()}
+
+
 def make_env():
     d = tempfile.mkdtemp(prefix='c12-')
     with open(os.path.join(d, 'proxy.css'), 'w') as f:
@@ -535,6 +711,113 @@ def histories(ctx):  # noqa: C901
                             'bound': bound})
     finally:
         drop_env(env)
+
+
+def stray_group_worker(job):
+    """(group name, [(name, (entry, mode, text)), ...]) in a fresh process: the calls one after the other (global-mode monitor around each), then the probe battery"""
+    gname, members = job
+    _quiet()
+    outcomes, monitor = [], []
+    for name, (entry, mode, text) in members:
+        before = globals_view()
+        try:
+            stray_call(entry, mode, text)
+            oc = 'returned'
+        except SystemExit:
+            oc = 'raised SystemExit'
+        except Exception as e:
+            oc = 'raised ' + type(e).__name__
+        outcomes.append(oc)
+        d = view_diff(before, globals_view())
+        if d:
+            monitor.append((name, oc, d))
+    return {'group': gname, 'outcomes': outcomes, 'monitor': monitor, 'battery': battery(), 'pid': os.getpid()}
+
+
+def stray_groups(calls):
+    """the calls grouped twice, so that every call sits in two histories with different successors:
+    by slot (all token kinds at one slot, one mode) and by token kind (all slots of one entry-point family, one mode)"""
+    by_slot, by_kind = {}, {}
+    for name, (entry, mode, text) in calls.items():
+        kind, where, how = name.split(' | ')
+        by_slot.setdefault(f'every stray token | {where} | {how}', []).append((name, (entry, mode, text)))
+        family = entry if entry in ('sheet', 'style') else 'DOM'
+        by_kind.setdefault(f'{kind} | every slot | {family}, {mode}', []).append((name, (entry, mode, text)))
+    return list(by_slot.items()) + list(by_kind.items())
+
+
+def stray_tokens(ctx):  # noqa: C901
+    """probe battery after earlier calls whose text has a stray token at some slot of some construct == battery of a fresh process"""
+    calls = stray_token_calls(ctx.tier)
+    groups = stray_groups(calls)
+    singles = list(calls.items()) if ctx.tier != 'quick' else []
+    with _fresh_pool(ctx) as p:
+        refs = p.map(history_worker_ref, [0, 1], chunksize=1)
+        gres = p.map(stray_group_worker, groups, chunksize=1)
+        ref = refs[0]
+        # quick tier: a deviating group history is taken apart - each of its calls alone in a fresh process - to name the call(s) responsible
+        suspects = {}
+        if ctx.tier == 'quick':
+            for (gname, members), r in zip(groups, gres):
+                if deviations(ref, r['battery']) or r['monitor']:
+                    suspects.update(dict(members))
+        res = p.map(stray_worker, singles + list(suspects.items()), chunksize=1)
+    if refs[1] != ref:
+        ctx.violation('bounded: the probe battery is deterministic in a fresh process', '; '.join(explain_battery_diff(ref, refs[1])[:3]), True, {'sequence': []})
+    if len({r['pid'] for r in gres}) != len(gres):
+        ctx.undecided.append('C12 stray tokens: histories shared a process (isolation lost); results not trustworthy')
+    kinds = set()
+    outcomes = {}
+    for (gname, members), r in zip(groups, gres):
+        for (name, (entry, mode, text)), oc in zip(members, r['outcomes']):
+            kinds.add((entry, mode, name.split(' | ')[1], oc))
+            if gname.startswith('every stray token'):
+                outcomes[oc] = outcomes.get(oc, 0) + 1
+    culprits = set()
+    for r in res:
+        entry, mode, text = calls[r['name']]
+        dev = deviations(ref, r['battery'])
+        if dev:
+            culprits.add(r['name'])
+            ids = classify_history([r['name']], [r['outcome']], dev)
+            detail = f"after {r['name']}: {entry} {text!r} ({mode}; {r['outcome']}): " + '; '.join(f'{k}: {a!r} -> {b!r}'[:300] for k, a, b in dev[:4])
+            for kid in (ids or [None]):
+                ctx.violation('bounded: probe battery after an earlier call with a stray token equals the battery in a fresh process', detail, True,
+                              {'entry': entry, 'mode': mode, 'text': text}, known_id=kid)
+        if r['monitor'] and entry in ('sheet', 'style'):
+            culprits.add(r['name'])
+            kid = classify_monitor(r['name'], r['outcome'], r['monitor'])
+            ctx.violation('bounded: a parse / serialise / csscombine call leaves error mode, serializer, preferences, profiles and the state attributes of the profile registry as they were',
+                          f"{entry} {text!r} ({mode}; {r['outcome']}): {'; '.join(r['monitor'])}", True, {'entry': entry, 'mode': mode, 'text': text}, known_id=kid)
+    # a group history that deviates although none of its calls does so alone: the combination is the witness
+    for (gname, members), r in zip(groups, gres):
+        dev = deviations(ref, r['battery'])
+        mon = [m for m in r['monitor'] if calls[m[0]][0] in ('sheet', 'style')]
+        if (dev or mon) and not any(n in culprits for n, _ in members):
+            seq = [{'entry': e, 'mode': m, 'text': t} for _, (e, m, t) in members]
+            detail = (f"after the history {gname!r} ({len(members)} calls, outcomes {sorted(set(r['outcomes']))!r}), none of whose calls deviates alone: "
+                      + '; '.join(f'{k}: {a!r} -> {b!r}'[:300] for k, a, b in dev[:4]) + ''.join(f'; monitor {n}: {d}' for n, _, d in mon[:2]))
+            ctx.violation('bounded: probe battery after an earlier call with a stray token equals the battery in a fresh process', detail, True, {'sequence': seq})
+    n_junk = len(QUICK_JUNK if ctx.tier == 'quick' else JUNK_TOKENS)
+    entries = sorted({t[0] for t in SLOT_TEMPLATES})
+    how = ('the calls are run as histories in freshly forked processes, grouped twice (all token kinds at one slot; one token kind at all slots of an entry-point family), so that every call sits in two histories with '
+           'different successors; a deviating history is taken apart into single calls, each in a fresh process' if ctx.tier == 'quick' else
+           'every call alone in a freshly forked process, and additionally as grouped histories (all token kinds at one slot; one token kind at all slots of an entry-point family)')
+    ctx.bounded.append({'name': 'one stray token at every slot of every construct', 'evaluations': (len(gres) + len(res)) * len(ref), 'distinct_nontrivial': len(kinds), 'exhaustive': False,
+                        'rule': (f'{len(SLOT_TEMPLATES)} slots (before / inside / behind every part of: sheet, selector, declaration block, declaration, value, priority, @font-face, @variables, @media with query and name, '
+                                 f'@import, @namespace, @charset, @page with margin rules, unknown at-rule) x {n_junk} stray token kinds x 2 modes per entry point (parseString / parseStyle: default and raising parser; '
+                                 f'{len(entries) - 2} stand-alone DOM constructors / setters of the sub-parsers: raising and log-only mode) = {len(calls)} earlier calls; {how}; afterwards the battery of '
+                                 f'{len(ref)} probes is compared with the battery of a fresh process, and the global modes before / after each parse call; distinct = (entry point, mode, construct, outcome)'),
+                        'calls': len(calls), 'histories': len(gres), 'single_call_processes': len(res), 'outcomes': outcomes,
+                        'samples': [{'history': groups[0][0], 'first text': groups[0][1][0][1][2]}, {'history': groups[-1][0], 'first text': groups[-1][1][0][1][2]}],
+                        'bound': (f'single stray token per text; {len(SLOT_TEMPLATES)} fixed slots; {n_junk} of {len(JUNK_TOKENS)} token kinds; '
+                                  + ('grouped histories, single calls only for deviating histories' if ctx.tier == 'quick' else 'every call alone and in grouped histories'))})
+
+
+def history_worker_ref(_):
+    """the battery of a fresh process"""
+    _quiet()
+    return battery()
 
 
 def modes(ctx):
